@@ -60,10 +60,10 @@ Definition cli_obs (ri0 : option run_ignored) (pre args : list str) (calls : lis
 BINARIES = [
     dict(pkg="a", id="crate_a", name="crate_a", kind="lib", platform="target"),
     dict(pkg="a", id="crate_a::x", name="x", kind="test", platform="target"),
-    dict(pkg="a", id="crate_a::bin/x", name="x", kind="bin", platform="target"),
+    dict(pkg="a", id="crate_a::bin/crate_b", name="crate_b", kind="bin", platform="target"),
     dict(pkg="b", id="crate_b", name="crate_b", kind="lib", platform="target"),
     dict(pkg="b", id="crate_b", name="crate_b", kind="lib", platform="host"),
-    dict(pkg="b", id="crate_b::y", name="y", kind="test", platform="target"),
+    dict(pkg="b", id="crate_b::crate_a", name="crate_a", kind="test", platform="target"),
     dict(pkg="c", id="crate_c", name="crate_c", kind="proc-macro", platform="host"),
     dict(pkg="d", id="crate_d::bench/x", name="x", kind="bench", platform="target"),
 ]
@@ -83,8 +83,10 @@ MENU = [
     ("kind(lib) & test(a)", lambda b, n, d: b["kind"] == "lib" and "a" in n),
     ("kind(test) - test(a)", lambda b, n, d: b["kind"] == "test" and "a" not in n),
     ("platform(host)", lambda b, n, d: b["platform"] == "host"),
-    ("binary(x)", lambda b, n, d: b["name"] == "x"),
-    ("binary_id(crate_a)", lambda b, n, d: b["id"] == "crate_a"),
+    # binary()/binary_id() must name a build target of the package graph (only crate_X libs there)
+    ("binary(crate_a)", lambda b, n, d: b["name"] == "crate_a"),
+    ("binary(crate_*)", lambda b, n, d: b["name"].startswith("crate_")),
+    ("binary_id(crate_b)", lambda b, n, d: b["id"] == "crate_b"),
     ("package(crate_a) | test(b)", lambda b, n, d: b["pkg"] == "a" or "b" in n),
     ("platform(target) and not (test(_) or kind(bench))",
      lambda b, n, d: b["platform"] == "target" and not ("_" in n or b["kind"] == "bench")),
